@@ -35,6 +35,8 @@ class Contract:
     result_alias: Optional[str] = None   # name of param the result aliases (else fresh)
     uses_lemmas: List[str] = dataclasses.field(default_factory=list)
     hints: List[str] = dataclasses.field(default_factory=list)      # ground terms made available to matching
+    uses_math: List[str] = dataclasses.field(default_factory=list)  # opt-in axioms for uninterpreted maths: "sqrt", "exp"
+    reveal: List[str] = dataclasses.field(default_factory=list)     # opaque macros whose definition this proof may unfold
     note: str = ""
     trusted: bool = False         # contract assumed, body not verified (external / out of subset)
     mode: str = "proof"           # "proof" (engine A) or "bounded" (engine C only; never counted as proved)
@@ -72,6 +74,43 @@ class Macro:
     params: List[str]
     body: str
     py: Optional[Callable] = None
+    opaque: Optional[tuple] = None      # (["real", ...], "real"): kept as an uninterpreted symbol unless revealed
+
+
+COROLLARIES: Dict[str, "Corollary"] = {}
+
+
+@dataclasses.dataclass
+class Corollary:
+    """a lemma over CONTRACTS only (no code): fresh variables, assumed facts, a sequence of contract
+    applications (each checked against the callee's requires), and a conclusion."""
+    name: str
+    props: List[str]
+    vars: Dict[str, str]
+    requires: List[str]
+    calls: List[tuple]            # (result name, contract key, {param: expr})
+    ensures: List[str]
+    let: Dict[str, str] = dataclasses.field(default_factory=dict)
+    sentence: str = ""
+    # uniform interface with Contract for the driver
+    trusted: bool = False
+    mode: str = "proof"
+    gen: Optional[Callable] = None
+    timeout_ms: int = 20000
+
+    @property
+    def key(self):
+        return self.name
+
+    @property
+    def qualname(self):
+        return self.name
+
+
+def corollary(name, **kw):
+    c = Corollary(name=name, **kw)
+    COROLLARIES[name] = c
+    return c
 
 
 def contract(key, **kw):
@@ -88,8 +127,8 @@ def spec_fn(name, params, ret, axioms, py, let=None, lemmas=None, doc=""):
     return s
 
 
-def macro(name, params, body, py=None):
-    m = Macro(name, params, body, py)
+def macro(name, params, body, py=None, opaque=None):
+    m = Macro(name, params, body, py, opaque)
     MACROS[name] = m
     return m
 
@@ -113,4 +152,4 @@ def load_all():
 
 def for_property(pid):
     load_all()
-    return [c for c in CONTRACTS.values() if pid in c.props]
+    return [c for c in CONTRACTS.values() if pid in c.props] + [c for c in COROLLARIES.values() if pid in c.props]
